@@ -2,7 +2,8 @@
 
 (1) firing variants: every seeded change filed under /verif/seeded that this property's rules are expected to catch (seeded/EXPECTED.json)
     is applied to the *current* source in memory and must raise a violation;
-(2) passing twins: behaviour-preserving rewrites of the current source (full re-format through ast.unparse, shifted line numbers) must stay silent;
+(2) passing twins: behaviour-preserving rewrites of the current source (full re-format through ast.unparse, shifted line numbers, every local of every
+    function renamed) must stay silent;
 (3) history: on the pinned original tree (root commit of /repo, read with `git show`) the rules of every finding recorded as fixed for this
     property must fire.
 A rule that misses its variant, fires on a twin, or is silent on the pinned tree makes the check exit 2: then the machinery, not nmfu, is broken.
@@ -31,6 +32,43 @@ def _patched(text, patch_file):
         return open(dst).read()
 
 
+class _RenameLocals(ast.NodeTransformer):
+    """Rename every function-local variable (not parameters, not names shared with nested functions) by appending a suffix."""
+    def visit_FunctionDef(self, node):
+        params = {a.arg for a in node.args.args + node.args.kwonlyargs + node.args.posonlyargs}
+        if node.args.vararg:
+            params.add(node.args.vararg.arg)
+        if node.args.kwarg:
+            params.add(node.args.kwarg.arg)
+        nested_defs = [n for n in ast.walk(node) if isinstance(n, (ast.FunctionDef, ast.Lambda)) and n is not node]
+        nested_names = {n.id for nd in nested_defs for n in ast.walk(nd) if isinstance(n, ast.Name)}
+        own, todo = [], list(ast.iter_child_nodes(node))
+        while todo:
+            n = todo.pop()
+            if isinstance(n, (ast.FunctionDef, ast.Lambda, ast.ClassDef)):
+                continue
+            own.append(n)
+            todo.extend(ast.iter_child_nodes(n))
+        local = {n.id for n in own if isinstance(n, ast.Name) and isinstance(n.ctx, ast.Store)}
+        for n in own:
+            if isinstance(n, (ast.Global, ast.Nonlocal)):
+                params |= set(n.names)
+        local -= params
+        local -= nested_names
+        for n in own:
+            if isinstance(n, ast.Name) and n.id in local:
+                n.id += "_rn"
+            if isinstance(n, ast.ExceptHandler) and n.name in local:
+                n.name += "_rn"
+        for nd in node.body:
+            self.generic_visit(nd) if not isinstance(nd, ast.FunctionDef) else self.visit_FunctionDef(nd)
+        return node
+
+
+def rename_locals_twin(text):
+    return ast.unparse(ast.fix_missing_locations(_RenameLocals().visit(ast.parse(text))))
+
+
 def run_battery(prop, rep):
     here = core.VERIF_DIR
     text = open(core.REPO_FILE).read()
@@ -55,7 +93,7 @@ def run_battery(prop, rep):
             raise core.AnalysisError(f"self-test: {prop} rules are silent on seeded change {sid}, which they are recorded to catch")
         fired += 1
         rep.ok("SELFTEST", "seeded/" + sid, f"fires: {sorted({v.rule for v in bad})}")
-    twins = {"reformat(ast.unparse)": ast.unparse(ast.parse(text)), "line-shift": "# shifted\n# lines\n\n" + text}
+    twins = {"reformat(ast.unparse)": ast.unparse(ast.parse(text)), "line-shift": "# shifted\n# lines\n\n" + text, "rename-every-local": rename_locals_twin(text)}
     for name, t in twins.items():
         try:
             bad = _run(prop, t)
